@@ -621,6 +621,15 @@ def variant(name, snap, comps, env, root):
     return venv, (src_lines(snap, root, comps) if use_src else []), pre, post
 
 
+def trace_first_load_only(ls):
+    """The look_sysfsnode model is compared on the first load of a case; the other loads of the case (second load,
+    other view, variants) read the same files."""
+    if "echo NAME M" in ls:
+        i = ls.index("echo NAME M")
+        return ls[:i + 1] + ["trace 0"] + ls[i + 1:]
+    return ls
+
+
 def run_chunk(pool, snapexe, drv, chunk):
     """chunk: [(cid, case)] all of one snapshot.  Returns {cid: result dict}."""
     snap = chunk[0][1][0]
@@ -630,7 +639,7 @@ def run_chunk(pool, snapexe, drv, chunk):
         top = pool.acquire(snap)
         script = []
         for cid, case in todo:
-            script += case_script(cid, case, top)
+            script += trace_first_load_only(case_script(cid, case, top))
         rc, out, err = C.sh([snapexe], input=("\n".join(script) + "\n").encode(), env=_env(), timeout=120 + 40 * len(todo))
         rc2, out2, err2 = C.sh([drv, "dumps"], input=out, timeout=600)
         want_objs = {cid for cid, case in todo if case[2].get("_io") or case[2].get("_scenario")}
@@ -1098,7 +1107,7 @@ def make_snapshot_cases(run, pool, snaps):
             comps, env, filters, flags = gen_config(rng, snap)
             cases.append(("config", (snap, comps, env, filters, flags, [])))
         # 3. random removal sets (up to 40 paths) x random configuration
-        for _ in range(16 if quick else 50):
+        for _ in range(14 if quick else 40):
             comps, env, filters, flags = gen_config(rng, snap, plain=rng.random() < 0.3)
             pool_paths = rem
             if snap.kind == "x86+linux":
@@ -1139,7 +1148,7 @@ def class_of(p):
 def class_cases(run, pool, snaps):
     """Systematic single removals of attribute files under sys/devices/system (x86: the cpuid dump): one
     light case per (snapshot x file-name class) - the instance rotates with the seed - in the quick tier,
-    up to 10 instances per class in the thorough tier."""
+    up to 8 instances per class in the thorough tier."""
     quick = run.tier == "quick"
     cases = []
     nclasses = 0
@@ -1155,7 +1164,7 @@ def class_cases(run, pool, snaps):
         for cls in sorted(classes):
             inst = classes[cls]
             nclasses += 1
-            k = 1 if quick else min(len(inst), 10)
+            k = 1 if quick else min(len(inst), 8)
             start = (run.seed * 7 + len(cls)) % len(inst)
             step = max(1, len(inst) // k)
             for j in range(k):
@@ -1305,7 +1314,7 @@ def scenario_cases(run, snaps):
 
 def corrupt_cases(run, pool, snaps):
     """An attribute file overwritten with a hostile content (gen.snapshot_gen.CORRUPT_CONTENTS): light cases, one file
-    per file-name class; quick = a seed-rotated slice of 160 (snapshot, class) pairs, thorough = every class, one random content each."""
+    per file-name class; quick = a seed-rotated slice of 110 (snapshot, class) pairs, thorough = every class, one random content each."""
     quick = run.tier == "quick"
     pairs = []
     for snap in snaps:
@@ -1317,8 +1326,8 @@ def corrupt_cases(run, pool, snaps):
         for cls in sorted(classes):
             pairs.append((snap, cls, classes[cls]))
     if quick:
-        off = (run.seed * 160) % max(1, len(pairs))
-        pairs = (pairs + pairs)[off:off + 160]
+        off = (run.seed * 110) % max(1, len(pairs))
+        pairs = (pairs + pairs)[off:off + 110]
     cases = []
     for snap, cls, inst in pairs:
         comps, env, filters, flags = gen_config(run.rng, snap, plain=True)
@@ -1344,15 +1353,16 @@ def node_mutation_cases(run, pool, snaps):
             continue
         rem = removable_of(pool, snap)
         nodes = sorted(int(m.group(1)) for p in rem for m in [re.search(r"sys/devices/system/node/node(\d+)/cpumap$", p)] if m)
-        if len(nodes) >= 2 and len(nodes) <= 17 and "KNL" not in snap.name and "nvidia" not in snap.name:
-            multi.append((snap, nodes))
+        if len(nodes) >= 2 and len(nodes) <= 17 and "KNL" not in snap.name:
+            gpus = sorted(m.group(1) for p in rem for m in [re.search(r"proc/driver/nvidia/gpus/([^/]+)/numa_status$", p)] if m)
+            multi.append((snap, nodes, gpus))
     cases = []
     if not multi:
         return cases
-    total = 120 if quick else 2500
+    total = 100 if quick else 2500
     nd = "sys/devices/system/node/"
     for k in range(total):
-        snap, nodes = multi[(run.seed + k) % len(multi)]
+        snap, nodes, gpus = multi[(run.seed + k) % len(multi)]
         comps, env, filters, flags = gen_config(rng, snap, plain=True)
         env = dict(env)
         env["_light"] = "1"
@@ -1365,7 +1375,19 @@ def node_mutation_cases(run, pool, snaps):
         filters = ["filter 15 0"] if rng.random() < 0.6 else []
         ops = []
         n = len(nodes)
-        for _ in range(rng.choice([1, 1, 2, 3, 4])):
+        if gpus:
+            # NUMA nodes that are NVIDIA GPU memory: kept or dropped, status files and local cpus in other shapes
+            if rng.random() < 0.6:
+                env["HWLOC_KEEP_NVIDIA_GPU_NUMA_NODES"] = rng.choice(["0", "1", "1", "2", "x"])
+            for _ in range(rng.choice([0, 1, 1, 2])):
+                g = rng.choice(gpus)
+                if rng.random() < 0.6:
+                    ops.append(G.put("proc/driver/nvidia/gpus/%s/numa_status" % g, rng.choice(
+                        ["Node: %d\n" % rng.choice(nodes), "Status: x\nNode:\t %d\nMore\n" % rng.choice(nodes), "Node:%d" % rng.choice(nodes), "Node: 999\n", "Node: -1\n",
+                         "node: 1\n", "", "Node:\n", "x\x00Node: %d\n" % rng.choice(nodes), "Node: 0%d junk\n" % rng.choice(nodes)])))
+                else:
+                    ops.append(G.put("sys/bus/pci/devices/%s/local_cpus" % g, rng.choice(["0\n", "ff\n", "00000000,0000000f\n", "", "garbage\n", "ffffffff,ffffffff,ffffffff\n"])))
+        for _ in range(rng.choice([1, 1, 2, 3, 4]) if not gpus or rng.random() < 0.5 else 0):
             a, b = rng.choice(nodes), rng.choice(nodes)
             kind = rng.choice(["cpumap", "cpumap", "distance", "distance", "distance", "online", "dirname", "initiator", "msc", "cmdline"])
             if kind == "cpumap":
